@@ -99,9 +99,10 @@ def heavy_item_family(rng, count):
     is an instance of its own with one bin fewer - shortcuts that are sound for two bins ("the largest item dominates: done") are not for more"""
     out = []
     for i in range(count):
-        n = rng.randint(4, 7)
+        k = rng.choice([3, 3, 3, 4, 4, 4, 5])
+        n = rng.randint(4, 8 if k <= 4 else 7)
         rest = [rng.randint(1, rng.choice([9, 30, 60])) for _ in range(n)]
-        out.append({"vals": [sum(rest) + rng.choice([0, 0, 1, 5, 40])] + rest, "k": rng.choice([3, 3, 3, 4, 4, 5])})
+        out.append({"vals": [sum(rest) + rng.choice([0, 0, 1, 5, 40])] + rest, "k": k})
         if i % 2:
             rng.shuffle(out[-1]["vals"])
     return out
